@@ -46,43 +46,6 @@ theorem non_as_needed_listed (fs : List File) (i : Nat) (f : File)
     i ∈ neededLibs fs :=
   (mem_needed fs i).2 ⟨f, hf, hd, (loaded_iff_reach fs i).2 (Reach.mandatory i f hf hopt)⟩
 
-theorem mem_requestsOf (fs : List File) (i d : Nat) :
-    d ∈ requestsOf fs i ↔ ∃ f n, fs[i]? = some f ∧ n ∈ f.strongUndefs ∧ firstDef fs n = some d ∧
-      d ≠ i ∧ ¬ (f.dynamic = true ∧ (fs[d]?.map (·.dynamic)).getD false = true) := by
-  unfold requestsOf
-  cases hf : fs[i]? with
-  | none => simp
-  | some f =>
-    simp only [List.mem_filterMap]
-    constructor
-    · rintro ⟨n, hn, h⟩
-      cases hfd : firstDef fs n with
-      | none => simp [hfd] at h
-      | some d' =>
-        simp only [hfd] at h
-        split at h
-        · rename_i hc
-          injection h with h; subst h
-          simp only [Bool.and_eq_true, bne_iff_ne, ne_eq, Bool.not_eq_true', Bool.and_eq_false_iff] at hc
-          refine ⟨f, n, rfl, hn, hfd, hc.1, ?_⟩
-          rintro ⟨h1, h2⟩
-          rcases hc.2 with h3 | h3 <;> simp_all
-        · cases h
-    · rintro ⟨f', n, hf', hn, hfd, hne, hnd⟩
-      injection hf' with hf'; subst hf'
-      refine ⟨n, hn, ?_⟩
-      simp only [hfd]
-      have : (d != i && !(f.dynamic && (fs[d]?.map (·.dynamic)).getD false)) = true := by
-        simp only [Bool.and_eq_true, bne_iff_ne, ne_eq, Bool.not_eq_true', Bool.and_eq_false_iff]
-        refine ⟨hne, ?_⟩
-        by_cases h1 : f.dynamic = true
-        · right
-          by_cases h2 : (fs[d]?.map (·.dynamic)).getD false = true
-          · exact absurd ⟨h1, h2⟩ hnd
-          · simpa using h2
-        · left; simpa using h1
-      rw [if_pos this]
-
 /-- **Exact characterisation of wild's behaviour.** An `--as-needed` library is listed iff a
 loaded regular object references non-weakly a name whose first definition is in that library. -/
 theorem as_needed_listed_iff (fs : List File) (d : Nat) (fd : File)
